@@ -138,7 +138,13 @@ def gen_inputs(ctx, fmt, v, n):
         lo = 0
     nargs = v["nargs"]
     out = []
-    for i in range(n):
+    if clause == "fma" and v["opts"].get("fix_overflow"):
+        # products of either sign in the last binade below the overflow threshold (the fix_overflow fallback's territory)
+        for _ in range(max(8, n // 6)):
+            t = _overflow_edge(fmt, rng)
+            if t is not None:
+                out.append(t)
+    for i in range(n - len(out)):
         r = rng.random()
         if r < 0.35:
             # a cluster of nearby exponents: cancellation, ties, power-of-two sums
@@ -157,6 +163,48 @@ def gen_inputs(ctx, fmt, v, n):
         else:
             out.append(tuple(fpx.directed_patterns(rng, fmt, nargs, lo, hi)))
     return out
+
+
+def _overflow_edge(fmt, rng):
+    """(x, y, z) with x*y finite, of either sign, within a few half-significand units of +-largest."""
+    p, ew, w = fpx.FMT[fmt]
+    bias = (1 << (ew - 1)) - 1
+    L = largest(fmt)
+    ef = bias + rng.randrange(-(bias // 2), bias // 2 + 1)
+    xb = fpx.pattern(fmt, rng.getrandbits(1), ef, fpx.directed_patterns(rng, fmt, 1)[0] & ((1 << (p - 1)) - 1))
+    x = fpx.to_fraction(xb, fmt)
+    if not x:
+        return None
+    h = (p + 1) // 2
+    delta = rng.choice([Fraction(0), Fraction(1, 2 ** p), Fraction(1, 2 ** h), Fraction(1, 2 ** (h - 1)), Fraction(1, 2 ** (h + 1)),
+                        Fraction(rng.randrange(1, 64), 2 ** (h + 3)), Fraction(rng.randrange(1, 64), 2 ** (p - 3))])
+    yb = fpx.round_ne(L * (1 - delta) / x * rng.choice([1, -1]), fmt)
+    if not fpx.is_finite(yb, fmt):
+        return None
+    y = fpx.to_fraction(yb, fmt)
+    for _ in range(4):
+        if abs(x * y) <= L:
+            break
+        yb -= 1  # one ulp towards zero
+        y = fpx.to_fraction(yb, fmt)
+    if not y or abs(x * y) > L or not fpx.is_finite(fpx.round_ne(x * y, fmt), fmt):
+        return None
+    k = rng.randrange(5)
+    if k == 0:
+        zb = 0
+    elif k == 1:
+        zb = 1 << (w - 1)
+    elif k == 2:
+        zb = fpx.directed_patterns(rng, fmt, 1, 0, bias)[0]
+    elif k == 3:
+        zb = _near_neg_product(fmt, xb, yb, rng)
+    else:
+        # moderate z pulling the sum towards zero
+        zb = fpx.round_ne(-(x * y) * Fraction(rng.randrange(1, 16), 64), fmt)
+    z = fpx.to_fraction(zb, fmt)
+    if z is None or not fpx.is_finite(fpx.round_ne(x * y + z, fmt), fmt):
+        zb = 0
+    return (xb, yb, zb)
 
 
 def _near_neg_product(fmt, a, b, rng):
@@ -285,7 +333,8 @@ def sig_of(name, v, fmt, fail):
 
 def run(ctx):
     ctx.rule = ("per (variant, dtype): directed operand tuples inside the documented domain (clusters of nearby exponents, cancellation, ties, "
-                "z near -x*y, powers of two and neighbours in every binade); non-trivial = all intermediate operations finite; distinct by operand bits")
+                "z near -x*y, powers of two and neighbours in every binade; for the fix_overflow FMA variants also products of either sign in the last binade below the overflow "
+                "threshold); non-trivial = all intermediate operations finite; distinct by operand bits")
     V, progs, errors = generate(ctx)
     broken = ctx.lean_stage(["FAVerif.Props.C11"], THEOREMS)
     n_per = ctx.scale(1000, 30000)
